@@ -98,6 +98,9 @@ def run(ctx):
                                   cplx=rng.random() < 0.5, nterms=rng.choice([1, 1, 2]))
         if len(op.terms) == 0:
             continue
+        from openfermion import normal_ordered as _no
+        if not [t for t, c in _no(op).terms.items() if t and abs(c) > 1e-12]:
+            continue        # terms cancelling to a constant: the empty-operator finding of C01/C06, not an export matter
         try:
             ham = fqe.get_sparse_hamiltonian(op, conserve_spin=(wk != "spinbroken"))
             out = w.apply(ham)
